@@ -860,6 +860,7 @@ func (db *DB) Close(ctx context.Context) (err error) {
 	db.f = nil
 	db.opened = false
 	db.rtx = nil
+	db.syncState = syncState{}
 	db.mu.Unlock()
 
 	if sqlDB != nil {
